@@ -156,10 +156,12 @@ RE_COV = re.compile(r'^<(\w+) line (\d+), col \d+ to line \d+, col \d+ of module
 
 def tlc_mc(ctx, name, module, consts, invariants=(), properties=(), view=None, constraints=(), workers=4, tmo=600,
            expect='ok', spec='Spec', simulate=None, depth=None, must_cover=(), symmetry=None, heap='8g',
-           action_constraints=(), env=None, dump_trace=False):
+           action_constraints=(), env=None, dump_trace=False, extra_files=None):
     """model-check `module` under a generated cfg. expect: 'ok' or 'violation' (mechanism toggle)."""
     d = ctx.sub('mc_' + name)
     stage_specs(d)
+    for fn, txt in (extra_files or {}).items():
+        open(os.path.join(d, fn), 'w').write(txt)
     cfgp = os.path.join(d, name + '.cfg')
     open(cfgp, 'w').write(cfg_text(spec, consts, invariants, properties, view, constraints, action_constraints,
                                    symmetry=symmetry, init=None if spec else 'SInit', next_=None if spec else 'SNext'))
